@@ -404,6 +404,15 @@ func rulePRODGUARD(c *Ctx, r *Report) {
 						proven = true
 					}
 				}
+				if !proven && row.Path != nil {
+					// through a boolean helper (isNumber(x)): what its true answer implies on every alternative
+					want := fmt.Sprintf("$0[%d].(*expr.Expression).Op", d)
+					for _, a := range c.expand(row.Path.Atoms, row.Path.Env) {
+						if a.Kind == "cmp" && a.Subj == want && a.Op == "==" && a.Val == "expr.Literal" {
+							proven = true
+						}
+					}
+				}
 				if proven {
 					r.ok(rule, key, pos, "operand proven Literal")
 				} else {
